@@ -605,27 +605,5 @@ S(id='omp_distance_loop_present', props=['C02'], kind='order', files=['lib/src/s
   sequence=[r'#pragma omp parallel for shared\(dm, s\) private\(i, j\) collapse\(2\) schedule\(static\)', r'for\(i = 0; i < numseq;i\+\+\)', r'for\(j = 0;j < num_samples;j\+\+\)', r'dm\[i\]\[j\] = calc_distance\(s1,s2,l1,l2\)'],
   text='distance matrix: the parallel loop is the collapse(2) static loop over (sequence, anchor) whose body assigns dm[i][j] from calc_distance of the two sequences')
 
-def _input_shapes(tier):
-    H, A, G, E = "'>'", "'A'", "'-'", "0"
-    sets = [
-        [(H, 2), (A, 2), (H, 2), (A, 2)],
-        [(E, 0), (H, 2), (A, 2), (H, 2), (A, 1)],              # blank first line
-        [(H, 2), (A, 2), (E, 0), (H, 2), (A, 2)],              # blank line between records
-    ]
-    if tier != 'quick':
-        sets += [[(H, 2), (A, 1), (A, 1), (H, 2), (G, 2), (A, 1)], [(E, 0), (E, 0), (H, 2), (A, 1), (H, 2), (A, 1)], [(H, 2), (A, 2)]]
-    out = []
-    for t in sets:
-        lens = [x[1] for x in t]
-        out.append(dict(name='lines_' + '_'.join('%s%d' % ({H: 'H', A: 'A', G: 'G', E: 'E'}[x[0]], x[1]) for x in t),
-                        defs=dict(KV_LINELENS='{' + ','.join(map(str, lens)) + '}', KV_LINEFIRST='{' + ','.join(x[0] for x in t) + '}'),
-                        unwind=max(len(t) + 3, 8)))
-    return out
-Q(id='C04.read_input', props=['C04', 'C05'], cls='B', harness='c04_read_input.c', entry='h_c04_read_input', shapes=_input_shapes,
-  mode='wrap', timeout=900, loops_files=['msa_alloc.shrink.loops', 'msa_io.shrink.loops', 'msa_io.inbuf.shrink.loops'], shrink=True, leak_check=False,
-  defs=['-DKV_CAP=4', '-DKV_SEQCAP=4', '-DKV_INCAP=7'], object_bits=11,
-  funcs=['kalign_read_input', 'read_file_stdin', 'detect_alignment_format', 'read_fasta', 'check_for_sequences', 'alloc_in_buffer', 'free_in_buffer', 'detect_aligned', 'set_sip_nsip'],
-  srcs=['lib/src/msa_alloc.c', 'lib/src/msa_op.c', 'lib/src/msa_misc.c', 'lib/src/alphabet.c', 'lib/src/tlmisc.c'], native_srcs=READER_NATIVE,
-  trusted=[TRUST_MSG, 'fopen/getline/fclose/my_file_exists: stubs that serve the lines of the shape', 'detect_alphabet: stub (own contract C13)', 'strstr/strnlen loop stubs, realloc byte-copy stub',
-           'R3 capacity shrink (line table 1024 -> 8, records 512 -> 4, residues 512 -> 8)'],
-  assumptions=[A_NOFAIL, A_WRAP, 'bounded: 4-6 lines of 0-2 bytes, first byte of each line concrete, others symbolic over {-,A,c,N}; FASTA only; one input file'])
+# (a query for kalign_read_input through stubbed fopen/getline was built and dropped: it did not finish in 15 min even on
+#  concrete inputs -- phantom re-allocation paths; harness/c04_read_input.c is kept for reference, seeded change C04_a is NOT caught)
